@@ -87,6 +87,17 @@ def render_key(spec, container="np", index=None):
     if container in ("pa", "pa_chunked", "pd_arrow", "pd_arrow_chunked", "pl"):
         a = to_arrow_array(spec, key=True)
         return wrap_arrow(a, container, spec.get("chunks"), index, name)
+    if container in ("pa_dict", "pa_dict_chunked", "pd_arrow_dict_chunked"):
+        # Arrow dictionary arrays; chunks are encoded separately, so their dictionaries differ
+        a = to_arrow_array(spec, key=True)
+        if container == "pa_dict":
+            return a.dictionary_encode()
+        b = np.cumsum([0] + list(spec.get("chunks") or [len(a)]))
+        chunks = [a.slice(lo, hi - lo).dictionary_encode() for lo, hi in zip(b[:-1], b[1:])]
+        ch = pa.chunked_array(chunks, type=chunks[0].type)
+        if container == "pa_dict_chunked":
+            return ch
+        return pd.Series(pd.arrays.ArrowExtensionArray(ch), index=index, name=name)
     raise ValueError(container)
 
 
